@@ -10,3 +10,7 @@ import BloomVerif.Props.C18
 import BloomVerif.Props.C19
 import BloomVerif.Props.C25
 import BloomVerif.Props.C26
+import BloomVerif.Props.C05
+import BloomVerif.Props.C07
+import BloomVerif.Props.C08
+import BloomVerif.Props.C09
